@@ -203,6 +203,10 @@ struct RunState {
     // C18 bookkeeping
     bool quiet = false;
     bool tscf_now = false;  // the control format the running talker was started with
+    // CAN listener: once the faults have stopped and the listener has been idle once, every frame it writes must come from a datagram it
+    // received after that point (it keeps nothing between datagrams)
+    bool settled = false, settled_taint = false;
+    uint64_t settled_effects = 0, settled_cargo = 0;
     bool gave_up = false;  // the listener terminated after an injected standard-output error: a legitimate reaction to an I/O error
     uint64_t probes_recv = 0, probe_cargo = 0, effects_after_quiet = 0, damaged_recv = 0, recv_total = 0, handlers_done = 0;
     // soak runs: observable effects and datagrams received, sampled at the borders of an early and a late window of equal length
@@ -633,11 +637,13 @@ void exec_plan(const std::string &text, bool verbose) {
         }
         auto pe = rs.probe_expect.find(f.id);
         if (pe != rs.probe_expect.end() && !f.damaged) { rs.probes_recv++; rs.probe_cargo += pe->second; w.count("probe.quiet_probe_received"); }
+        if (rs.settled) { if (pe != rs.probe_expect.end() && !f.damaged) rs.settled_cargo += pe->second; else rs.settled_taint = true; }
     };
     w.hooks.on_can_write = [](World &, int node, int, const CanRec &) {
         RunState &rs = *g_rs;
         if (node == rs.listener) rs.effects_total++;
         if (node == rs.listener && rs.quiet) rs.effects_after_quiet++;
+        if (node == rs.listener && rs.settled) rs.settled_effects++;
     };
     w.hooks.on_stdout_fd = [](World &, int node, const uint8_t *, size_t) {
         RunState &rs = *g_rs;
@@ -651,7 +657,7 @@ void exec_plan(const std::string &text, bool verbose) {
     };
     w.hooks.on_handler_done = [](World &w, int node) {
         RunState &rs = *g_rs;
-        if (node == rs.listener) { rs.handlers_done++; rs.listener_started = true; }
+        if (node == rs.listener) { rs.handlers_done++; rs.listener_started = true; if (rs.quiet) rs.settled = true; }
         (void)w;
     };
     w.hooks.on_task_exit = [c19](World &w, int node, int code, bool via_exit) {
@@ -910,6 +916,10 @@ void exec_plan(const std::string &text, bool verbose) {
                                    (unsigned long long)ra, (unsigned long long)ea, (unsigned long long)rb, (unsigned long long)eb, (unsigned long long)rs.recv_total));
             }
         }
+        if (p.scen == "can" && !rs.settled_taint && rs.settled_effects > rs.settled_cargo)
+            violation("probe-lost:spurious-output", strf("after the faults stopped and the listener had been idle, it received well-formed datagrams carrying %llu CAN frames and wrote %llu: "
+                                                         "it writes frames that no datagram carried - what it does with a datagram now depends on what it received before",
+                                                         (unsigned long long)rs.settled_cargo, (unsigned long long)rs.settled_effects));
         if (rs.effects_after_quiet < rs.probe_cargo) w.counters["probe_effect_deficit"] = rs.probe_cargo - rs.effects_after_quiet;
         if (rs.effects_after_quiet < rs.probe_cargo)
             violation("probe-lost:effect", strf("after the faults stopped the listener received %llu well-formed datagrams that should have produced %llu outputs, but produced %llu",
